@@ -42,7 +42,12 @@ static int mf_count = 0;
 static std::string mf_names[64];
 const char* verif_memfile_path(long fid) { static std::string p[64]; p[fid % 64] = mf_names[fid % 64].empty() ? mf_dir() + "/mf_" + std::to_string(fid) : mf_names[fid % 64]; return p[fid % 64].c_str(); }
 // a named file: the harness refers to it by a relative name, so the process moves into the scratch directory
-void verif_memfile_name(long fid, const char* name) { if (chdir(mf_dir().c_str()) != 0) {} mf_names[fid % 64] = name; }
+void verif_memfile_name(long fid, const char* name) {
+    if (chdir(mf_dir().c_str()) != 0) {}
+    std::string old = verif_memfile_path(fid); struct stat sb;
+    if (old != name && stat(old.c_str(), &sb) == 0) rename(old.c_str(), name);     // content created before the file got its name
+    mf_names[fid % 64] = name;
+}
 static std::string mf_read(long fid) { std::ifstream f(verif_memfile_path(fid), std::ios::binary); return std::string((std::istreambuf_iterator<char>(f)), std::istreambuf_iterator<char>()); }
 static void mf_write(long fid, const std::string& d) { std::ofstream f(verif_memfile_path(fid), std::ios::binary | std::ios::trunc); f.write(d.data(), d.size()); }
 std::fstream* verif_memfile(unsigned long n) {
